@@ -216,9 +216,9 @@ func c31GenTx(rt *rapid.T, amsterdam bool, newSlot *byte) c31TxPlan {
 		p.gas = uint64(rapid.IntRange(0, 30_000).Draw(rt, "gaslow")) // often below intrinsic/floor
 	case 1, 2:
 		p.gas = uint64(rapid.IntRange(21_000, 120_000).Draw(rt, "gasmid")) // may run out of gas mid-way
-	case 3:
+	case 3, 4:
 		if amsterdam {
-			p.gas = uint64(rapid.IntRange(16_000_000, 20_000_000).Draw(rt, "gashuge")) // above MaxTxGas: reservoir
+			p.gas = params.MaxTxGas + uint64(rapid.IntRange(1, 4_000_000).Draw(rt, "gashuge")) // above MaxTxGas: reservoir
 		} else {
 			p.gas = uint64(rapid.IntRange(1_000_000, 16_777_216).Draw(rt, "gashuge"))
 		}
@@ -248,6 +248,12 @@ func c31Settlement(t *testing.T, amsterdam bool, mult float64) {
 			limit = uint64(rapid.IntRange(50_000, 400_000).Draw(rt, "limit"))
 		case 1:
 			limit = uint64(rapid.IntRange(400_000, 3_000_000).Draw(rt, "limit"))
+		case 2:
+			if amsterdam { // around MaxTxGas: the state dimension reserves the whole gas limit, the execution dimension only MaxTxGas
+				limit = params.MaxTxGas + uint64(rapid.IntRange(0, 4_000_000).Draw(rt, "limitextra"))
+			} else {
+				limit = uint64(rapid.IntRange(3_000_000, 60_000_000).Draw(rt, "limit"))
+			}
 		default:
 			limit = uint64(rapid.IntRange(3_000_000, 60_000_000).Draw(rt, "limit"))
 		}
@@ -273,7 +279,7 @@ func c31Settlement(t *testing.T, amsterdam bool, mult float64) {
 		var newSlot byte
 		var cumulative uint64
 		var desc []string
-		included, rejected, refunded, capped, floored, failed, notFit := 0, 0, 0, 0, 0, 0, 0
+		included, rejected, refunded, capped, floored, failed, notFit, notFitStateOnly := 0, 0, 0, 0, 0, 0, 0, 0
 		for i := 0; i < ntx; i++ {
 			p := c31GenTx(rt, amsterdam, &newSlot)
 			k := c31Keys[p.sender]
@@ -287,6 +293,9 @@ func c31Settlement(t *testing.T, amsterdam bool, mult float64) {
 			var mustNotFit bool
 			if amsterdam {
 				mustNotFit = limit-gp.CumulativeExecution() < min(p.gas, params.MaxTxGas) || limit-gp.CumulativeState() < p.gas
+				if mustNotFit && limit-gp.CumulativeExecution() >= min(p.gas, params.MaxTxGas) {
+					notFitStateOnly++
+				}
 			} else {
 				mustNotFit = gp.Gas() < p.gas
 			}
@@ -395,6 +404,9 @@ func c31Settlement(t *testing.T, amsterdam bool, mult float64) {
 		}
 		if notFit > 0 {
 			c.Class("has-does-not-fit")
+		}
+		if notFitStateOnly > 0 {
+			c.Class("has-does-not-fit-state-dimension-only")
 		}
 		if refunded > 0 {
 			c.Class("has-refund")
